@@ -84,72 +84,86 @@ Definition swap_first_last (cs : list dchild) : list dchild :=
   | c0 :: r => match rev r with l :: mid => l :: rev mid ++ [c0] | [] => cs end
   end.
 
+Definition mk_entry (ph de h : N) : dentry := {| d_phi := ph; d_delta := de; d_hash := h; d_work := 0; d_pv := move0 |}.
+Definition set_fuel_out (s : dstate) : dstate :=
+  {| dtable := dtable s; dstack := dstack s; killers := killers s; dst := dst s; dfuel_out := true |}.
+Definition set_bounds (cur : dentry) (ph de : N) : dentry :=
+  {| d_phi := ph; d_delta := de; d_hash := d_hash cur; d_work := d_work cur; d_pv := d_pv cur |}.
+
+(* the entry of a freshly generated child: finished / immediate threat of the mover / table / unknown *)
+Definition child_entry_live (s : dstate) (p : position) : dstate * dentry :=
+  match solve p with
+  | Some result =>
+    let '(ph, de) := terminal_bounds p result in
+    (bump_d s (fun t => {| ds_rep := ds_rep t; ds_term := ds_term t; ds_solved := ds_solved t + 1; ds_hits := ds_hits t; ds_miss := ds_miss t |}),
+     mk_entry ph de (hash_of p))
+  | None =>
+    match lookup s p with
+    | Some b => (bump_d s (fun t => {| ds_rep := ds_rep t; ds_term := ds_term t; ds_solved := ds_solved t; ds_hits := ds_hits t + 1; ds_miss := ds_miss t |}), b)
+    | None => (bump_d s (fun t => {| ds_rep := ds_rep t; ds_term := ds_term t; ds_solved := ds_solved t; ds_hits := ds_hits t; ds_miss := ds_miss t + 1 |}),
+               mk_entry 1 (N.of_nat (length (all_moves p)) mod 2 ^ 32) (hash_of p))
+    end
+  end.
+
+Definition child_entry (s : dstate) (p : position) : dstate * dentry :=
+  match game_over p with
+  | Some (true, result) =>
+    let '(ph, de) := terminal_bounds p result in
+    (bump_d s (fun t => {| ds_rep := ds_rep t; ds_term := ds_term t + 1; ds_solved := ds_solved t; ds_hits := ds_hits t; ds_miss := ds_miss t |}),
+     mk_entry ph de (hash_of p))
+  | _ => child_entry_live s p
+  end.
+
+(* the child loop of mid: appends, moves the killer to the front, stops after a child with delta = 0 *)
+Fixpoint gen_children (g : position) (killer : option rmove) (ms : list rmove) (s : dstate) (acc : list dchild) : dstate * list dchild :=
+  match ms with
+  | [] => (s, acc)
+  | m :: r =>
+    match dmv g m with
+    | Ok p =>
+      let '(s, e) := child_entry s p in
+      let acc := acc ++ [{| ch_move := m; ch_g := p; ch_data := e |}] in
+      let acc := match killer with Some k => if rmove_eqb m k then swap_first_last acc else acc | None => acc end in
+      if d_delta e =? 0 then (s, acc) else gen_children g killer r s acc
+    | _ => gen_children g killer r s acc
+    end
+  end.
+
+(* the main loop of mid; `rec` is mid one level down *)
+Fixpoint mid_loop (rec : dstate -> position -> N -> N -> dentry -> dstate * dentry * N) (bphi bdelta : N)
+         (k : nat) (s : dstate) (children : list dchild) (cur : dentry) (lw : N) : dstate * dentry * N :=
+  let '(ph, de) := compute_pns children in
+  let cur := set_bounds cur ph de in
+  match k with
+  | O => ((if exceeded ph de bphi bdelta then s else set_fuel_out s), cur, lw)
+  | S k' =>
+    if exceeded ph de bphi bdelta then (s, cur, lw) else
+    let '(best, (cphi, cdelta)) := select_child children bphi bdelta de in
+    let bi := Z.to_nat best in
+    match nth_error children bi with
+    | None => (s, cur, lw)      (* children[-1]: a Go panic; unreachable when not exceeded *)
+    | Some ch =>
+      let cur := {| d_phi := ph; d_delta := de; d_hash := d_hash cur; d_work := d_work cur; d_pv := ch_move ch |} in
+      let s1 := {| dtable := dtable s; dstack := dstack s ++ [(ch_g ch, ch_move ch)]; killers := killers s; dst := dst s; dfuel_out := dfuel_out s |} in
+      let '(s2, ne, w) := rec s1 (ch_g ch) cphi cdelta (ch_data ch) in
+      let s3 := {| dtable := dtable s2; dstack := dstack s; killers := killers s2; dst := dst s2; dfuel_out := dfuel_out s2 |} in
+      if dfuel_out s2 then (s3, cur, lw) else
+      mid_loop rec bphi bdelta k' s3 (set_child children bi ne)
+               {| d_phi := d_phi cur; d_delta := d_delta cur; d_hash := d_hash cur; d_work := d_work cur + w; d_pv := d_pv cur |} (lw + w)
+    end
+  end.
+
 Fixpoint mid (lfuel : nat) (fuel : nat) (s : dstate) (g : position) (bphi bdelta : N) (cur : dentry) : dstate * dentry * N :=
-  match fuel with O => ({| dtable := dtable s; dstack := dstack s; killers := killers s; dst := dst s; dfuel_out := true |}, cur, 0) | S f =>
+  match fuel with O => (set_fuel_out s, cur, 0) | S f =>
   if exceeded (d_phi cur) (d_delta cur) bphi bdelta then (s, cur, 0) else
   if check_repetition s then
     let '(ph, de) := terminal_bounds g GNone in
     (bump_d s (fun t => {| ds_rep := ds_rep t + 1; ds_term := ds_term t; ds_solved := ds_solved t; ds_hits := ds_hits t; ds_miss := ds_miss t |}),
-     {| d_phi := ph; d_delta := de; d_hash := d_hash cur; d_work := d_work cur; d_pv := d_pv cur |}, 0) else
+     set_bounds cur ph de, 0) else
   let depth := length (dstack s) in
   let killer := match nth_error (killers s) depth with Some k => if (mT k =? 0) then None else Some k | None => None end in
-  (* children *)
-  let '(s, children) :=
-    (fix gen (ms : list rmove) (s : dstate) (acc : list dchild) : dstate * list dchild :=
-       match ms with
-       | [] => (s, acc)
-       | m :: r =>
-         match dmv g m with
-         | Ok p =>
-           let '(s, e) :=
-             match game_over p with
-             | Some (true, result) =>
-               let '(ph, de) := terminal_bounds p result in
-               (bump_d s (fun t => {| ds_rep := ds_rep t; ds_term := ds_term t + 1; ds_solved := ds_solved t; ds_hits := ds_hits t; ds_miss := ds_miss t |}),
-                {| d_phi := ph; d_delta := de; d_hash := hash_of p; d_work := 0; d_pv := move0 |})
-             | _ =>
-               match solve p with
-               | Some result =>
-                 let '(ph, de) := terminal_bounds p result in
-                 (bump_d s (fun t => {| ds_rep := ds_rep t; ds_term := ds_term t; ds_solved := ds_solved t + 1; ds_hits := ds_hits t; ds_miss := ds_miss t |}),
-                  {| d_phi := ph; d_delta := de; d_hash := hash_of p; d_work := 0; d_pv := move0 |})
-               | None =>
-                 match lookup s p with
-                 | Some b => (bump_d s (fun t => {| ds_rep := ds_rep t; ds_term := ds_term t; ds_solved := ds_solved t; ds_hits := ds_hits t + 1; ds_miss := ds_miss t |}), b)
-                 | None => (bump_d s (fun t => {| ds_rep := ds_rep t; ds_term := ds_term t; ds_solved := ds_solved t; ds_hits := ds_hits t; ds_miss := ds_miss t + 1 |}),
-                            {| d_phi := 1; d_delta := N.of_nat (length (all_moves p)) mod 2 ^ 32; d_hash := hash_of p; d_work := 0; d_pv := move0 |})
-                 end
-               end
-             end in
-           let acc := acc ++ [{| ch_move := m; ch_g := p; ch_data := e |}] in
-           let acc := match killer with Some k => if rmove_eqb m k then swap_first_last acc else acc | None => acc end in
-           if d_delta e =? 0 then (s, acc) else gen r s acc
-         | _ => gen r s acc
-         end
-       end) (all_moves g) s [] in
-  (* the main loop *)
-  let '(s, cur, work) :=
-    (fix loop (k : nat) (s : dstate) (children : list dchild) (cur : dentry) (lw : N) : dstate * dentry * N :=
-       let '(ph, de) := compute_pns children in
-       let cur := {| d_phi := ph; d_delta := de; d_hash := d_hash cur; d_work := d_work cur; d_pv := d_pv cur |} in
-       match k with
-       | O => ((if exceeded ph de bphi bdelta then s
-                else {| dtable := dtable s; dstack := dstack s; killers := killers s; dst := dst s; dfuel_out := true |}), cur, lw)
-       | S k' =>
-         if exceeded ph de bphi bdelta then (s, cur, lw) else
-         let '(best, (cphi, cdelta)) := select_child children bphi bdelta de in
-         let bi := Z.to_nat best in
-         match nth_error children bi with
-         | None => (s, cur, lw)      (* children[-1]: a Go panic; unreachable when not exceeded *)
-         | Some ch =>
-           let cur := {| d_phi := ph; d_delta := de; d_hash := d_hash cur; d_work := d_work cur; d_pv := ch_move ch |} in
-           let s1 := {| dtable := dtable s; dstack := dstack s ++ [(ch_g ch, ch_move ch)]; killers := killers s; dst := dst s; dfuel_out := dfuel_out s |} in
-           let '(s2, ne, w) := mid lfuel f s1 (ch_g ch) cphi cdelta (ch_data ch) in
-           let s3 := {| dtable := dtable s2; dstack := dstack s; killers := killers s2; dst := dst s2; dfuel_out := dfuel_out s2 |} in
-           if dfuel_out s2 then (s3, cur, lw) else
-           loop k' s3 (set_child children bi ne) {| d_phi := d_phi cur; d_delta := d_delta cur; d_hash := d_hash cur; d_work := d_work cur + w; d_pv := d_pv cur |} (lw + w)
-         end
-       end) lfuel s children cur 1 in
+  let '(s, children) := gen_children g killer (all_moves g) s [] in
+  let '(s, cur, work) := mid_loop (mid lfuel f) bphi bdelta lfuel s children cur 1 in
   let s := if d_phi cur =? 0 then
              let ks := killers s ++ repeat move0 (S depth - length (killers s)) in
              {| dtable := dtable s; dstack := dstack s; killers := set_nth ks depth (d_pv cur); dst := dst s; dfuel_out := dfuel_out s |}
@@ -165,17 +179,45 @@ Definition result_of (g : position) (e : dentry) : N :=
   let '(w, l) := if Bool.eqb attacker_white (to_move_white g) then (mover_wins, mover_loses) else (mover_loses, mover_wins) in
   if w then 1 else if l then 2 else 0.
 
+Definition dstats0 : dstats := {| ds_rep := 0; ds_term := 0; ds_solved := 0; ds_hits := 0; ds_miss := 0 |}.
 Definition dstate0 (table_entries : nat) : dstate :=
-  {| dtable := repeat dentry0 table_entries; dstack := []; killers := [];
-     dst := {| ds_rep := 0; ds_term := 0; ds_solved := 0; ds_hits := 0; ds_miss := 0 |}; dfuel_out := false |}.
+  {| dtable := repeat dentry0 table_entries; dstack := []; killers := []; dst := dstats0; dfuel_out := false |}.
 
-(* Prove(): a root whose game is already over is decided by terminalBounds (mid only tests the children it generates) *)
-Definition prove (lfuel dfuel : nat) (table_entries : nat) (g : position) : dstate * dentry * N :=
+(* Prove() on a solver in state s0 (table and killers may come from earlier calls; stack and counters are reset by the
+   caller): a root whose game is already over is decided by terminalBounds (mid only tests the children it generates) *)
+Definition prove_from (lfuel dfuel : nat) (s0 : dstate) (g : position) : dstate * dentry * N :=
   let root := {| d_phi := 1; d_delta := 1; d_hash := hash_of g; d_work := 0; d_pv := move0 |} in
   match game_over g with
   | Some (true, who) =>
     let '(ph, de) := terminal_bounds g who in
-    (dstate0 table_entries, {| d_phi := ph; d_delta := de; d_hash := hash_of g; d_work := 0; d_pv := move0 |}, 0)
-  | _ => mid lfuel dfuel (dstate0 table_entries) g (INF / 2) (INF / 2) root
+    (s0, {| d_phi := ph; d_delta := de; d_hash := hash_of g; d_work := 0; d_pv := move0 |}, 0)
+  | _ => mid lfuel dfuel s0 g (INF / 2) (INF / 2) root
   end.
+
+(* a fresh solver *)
+Definition prove (lfuel dfuel : nat) (table_entries : nat) (g : position) : dstate * dentry * N :=
+  prove_from lfuel dfuel (dstate0 table_entries) g.
 End D.
+
+(* ---- one DFPNSolver used for several positions in a row (gencorpus does this) ----
+   The table and the killer moves persist; per call the attacker is the configured one or, when none is configured,
+   the side to move; when it differs from the attacker of the previous call the table is cleared (stored bounds award
+   draws to the opponent of the attacker they were computed for).  cfg_attacker / sv_attacker: 0 none, 1 White, 2 Black. *)
+Record dsolver := { sv_table : list dentry; sv_killers : list rmove; sv_attacker : N }.
+Definition dsolver0 (table_entries : nat) : dsolver := {| sv_table := repeat dentry0 table_entries; sv_killers := []; sv_attacker := 0 |}.
+
+Definition prove_on (basis : list N) (lfuel dfuel : nat) (cfg_attacker : N) (sv : dsolver) (g : position)
+  : dsolver * (dstate * dentry * N * N) :=
+  let aw := match cfg_attacker with 1 => true | 2 => false | _ => to_move_white g end in
+  let att := if aw then 1 else 2 in
+  let table := if sv_attacker sv =? att then sv_table sv else map (fun _ => dentry0) (sv_table sv) in
+  let s0 := {| dtable := table; dstack := []; killers := sv_killers sv; dst := dstats0; dfuel_out := false |} in
+  let '(s, e, work) := prove_from basis aw lfuel dfuel s0 g in
+  ({| sv_table := dtable s; sv_killers := killers s; sv_attacker := att |}, (s, e, work, result_of aw g e)).
+
+Fixpoint prove_seq (basis : list N) (lfuel dfuel : nat) (cfg_attacker : N) (sv : dsolver) (gs : list position)
+  : list (dstate * dentry * N * N) :=
+  match gs with
+  | [] => []
+  | g :: r => let '(sv', out) := prove_on basis lfuel dfuel cfg_attacker sv g in out :: prove_seq basis lfuel dfuel cfg_attacker sv' r
+  end.
